@@ -7,6 +7,10 @@ TECH = "bounded symbolic execution of the real code's go/ssa form, every branch/
 BASE = "cd /repo && go test -vet=off -count=1 -timeout 25m ./..."
 
 CLAIMED = {
+ "C13": dict(
+   text="(a) NewIO (+NewTimer), Dial tcp/udp (resolve, socket, set-nonblock, options, connect with EINPROGRESS/select/SO_ERROR, getsockname), Listen + Accept, NewPacketConn, Open executed with EVERY environment call free to fail (descriptor allocation, epoll_ctl, setsockopt/bind/listen/connect/getsockname/fcntl, select) in any combination: on an error return the kernel model's open-descriptor set equals the one before the call; on success Close releases exactly the descriptors created. (b) Close, creation of another object that receives the same number (lowest-free allocation), Close again: the other object's descriptor is still open (file/conn, listener, packet conn, timer, IO). (c) in the reactor world, whenever an operation is in flight on an object in either direction, ioc.pending references the object's slot (all histories of k=3/4 starts/cancels/polls with both directions).",
+   note="Not applicable clauses (DESIGN §5): the garbage collector itself (only the reachability mechanism is checked), websocket Handshake/AsyncHandshake descriptors (net.Dial/tls/http), NewUDPPeer and NewMirroredBuffer (covered under C12/C11 when their packages run on the model).",
+   ref="DESIGN.md §4 C13"),
  "C04": dict(
    text="All histories of k=3/5 actions {ScheduleOnce, ScheduleRepeating with symbolic delays in [-5, 2^40] ns, Cancel, Close, cancel+re-arm, start a pipe read, poll cycle} over two sonic.Timers and a pipe on one IO, with 1/2 further nested actions taken from inside timer or pipe callbacks of the same poll batch (batches of <= 2/3 entries in any order), symbolic clock advances. Asserted at every callback entry: the schedule it belongs to is still the active one (never after Cancel/Close, at most once for ScheduleOnce), now >= schedule time + delay (never early), repeats >= one interval apart; scheduling while scheduled or on a closed timer fails and leaves the existing schedule intact; Scheduled() <=> a callback is due. Second harness: a due timer whose deadline has passed and whose entry is delivered runs exactly once in that cycle.",
    note="Scheduling a timer from inside its own callback is outside (whether a repeating timer holds a schedule during its callback is undefined); model clock is monotonic; timerfd semantics per vsys/vkernel (settime resets the expiration count, entries of a batch are fixed when epoll_wait returns).",
